@@ -24,6 +24,7 @@ MCSlots2 == {1, 2}
 MCEntriesBi == {E("/v/a", "exact"), E("/v/a", "prefix"), E("/v/b", "exact")}
 MCReqs2ab == ReqsUpTo(2, {"/v/a", "/v/a/1", "/v/b"})
 MCTokens1 == {"/v/b"}
+MCTokens2 == {"/v/c", "/v/a/1"}
 OnlyA == {"A"}
 OnlyB == {"B"}
 Both == {"A", "B"}
